@@ -348,6 +348,10 @@ def derives_from(path, v, pred, depth=0):
                 return True
             if any(derives_from(path, a, pred, depth + 1) for a in c['args']):
                 return True
+            # ... and through the values behind the references it was handed (`Member::id(&member)` with `member` an owned
+            # local: what the local holds is what counts)
+            if any(d is not None and derives_from(path, d, pred, depth + 1) for d in (c.get('derefs') or [])):
+                return True
     return False
 
 
